@@ -263,13 +263,16 @@ def run(repo, rep, tier):
     md = [n for n in body_walk(w) if isinstance(n, ast.Call) and last_attr(n.func) == "mark_dirty"]
     ok = False
     if md:
+        from ..symexec import Straight, bool_equiv
+        sl = Straight(w)
         conds = []
         p = getattr(md[0], "_parent", None)
         while p is not None and p is not w:
             if isinstance(p, ast.If):
-                conds.append(U(p.test).replace(" ", "").replace("\n", ""))
+                conds.append(sl.at(p, p.test))
             p = getattr(p, "_parent", None)
-        ok = len(conds) == 1 and conds[0] in ("row<self._model.num_header_rows(self._table_id)orcol<self._model.num_header_cols(self._table_id)",)
+        want = ast.parse("row < self._model.num_header_rows(self._table_id) or col < self._model.num_header_cols(self._table_id)", mode="eval").body
+        ok = len(conds) == 1 and bool_equiv(conds[0], want) is True
     rep.ob("C09.R4", md[0] if md else w, "Table.write invalidates the name cache whenever a header row/column cell is written", ok,
            "" if ok else "header labels can change without the name cache noticing", key="C09.R4@write:mark_dirty")
     at = repo.func("model.py", "_NumbersModel.add_table")
